@@ -20,6 +20,7 @@ import (
 	"os"
 	"sort"
 	"strings"
+	"sync"
 	"time"
 
 	"github.com/cube2222/octosql/execution"
@@ -415,6 +416,270 @@ func runCase(c *core.Ctx, tc *tcase, idx int) {
 		// the case still counts as explored
 	}
 	account(c, tc, want, replay)
+}
+
+// ---------------------------------------------------------------------------------------------
+// the same materialized node run more than once: every run must be judged by the same reference,
+// i.e. the generator must not carry its maximum / watermark from one Run call to the next
+
+func buildScript(tc *tcase) (evs []nodeh.Event, stepOf []int) {
+	for i := range tc.times {
+		if w, ok := tc.srcWMAt[i]; ok {
+			evs = append(evs, nodeh.WM(utc(w)))
+			stepOf = append(stepOf, -1)
+		}
+		et := time.Time{}
+		if tc.srcET[i] != 0 {
+			et = utc(tc.srcET[i])
+		}
+		evs = append(evs, nodeh.Rec(tc.row(i), tc.retr[i], et))
+		stepOf = append(stepOf, i)
+	}
+	return
+}
+
+// multiSource replays script k on its k-th Run and advances the k-th collector's step counter.
+type multiSource struct {
+	mu      sync.Mutex
+	runs    int
+	scripts [][]nodeh.Event
+	stepOfs [][]int
+	cols    []*nodeh.Collector
+}
+
+func (m *multiSource) Run(ctx execution.ExecutionContext, produce execution.ProduceFn, metaSend execution.MetaSendFn) error {
+	m.mu.Lock()
+	k := m.runs
+	m.runs++
+	m.mu.Unlock()
+	if k >= len(m.scripts) {
+		k = len(m.scripts) - 1
+	}
+	src := &nodeh.ScriptSource{Events: m.scripts[k], AfterEach: func(j int) {
+		if m.stepOfs[k][j] >= 0 {
+			m.cols[k].SetStep(m.stepOfs[k][j] + 1)
+		}
+	}}
+	return src.Run(ctx, produce, metaSend)
+}
+
+func runRerun(c *core.Ctx, tcs []*tcase, idx int) {
+	c.Eval(1)
+	first := tcs[0]
+	ms := &multiSource{}
+	for _, tc := range tcs {
+		evs, so := buildScript(tc)
+		ms.scripts = append(ms.scripts, evs)
+		ms.stepOfs = append(ms.stepOfs, so)
+		ms.cols = append(ms.cols, &nodeh.Collector{})
+	}
+	db := &nodeh.DB{Tables: map[string]*nodeh.Table{"t": {Fields: first.fields(), TimeField: -1, Source: func() execution.Node { return ms }}}}
+	p, perr := nodeh.Plan(nodeh.Ctx(), first.sql(), db, nodeh.PlanOpts{Optimize: first.optimize, Output: "none"})
+	if perr != nil {
+		c.Violation("plan-error:"+perr.Stage, "a documented max_diff_watermark call was rejected: "+perr.Error(), first.replay(nil))
+		return
+	}
+	for k, tc := range tcs {
+		res := nodeh.RunNodeCtx(nodeh.Ctx(), p.Exec, ms.cols[k], nil, 30*time.Second)
+		outs := ms.cols[k].Snapshot()
+		replay := tc.replay(outs)
+		replay["id"] = first.id
+		replay["run_of_the_same_materialized_node"] = k + 1
+		if k > 0 {
+			replay["previous_run_times"] = tcs[k-1].replay(nil)["times"]
+		}
+		if res.TimedOut {
+			c.Inconclusive("watchdog")
+			return
+		}
+		if res.Panicked {
+			c.Violation("panic:"+core.PanicSite(res.Stack), "max_diff_watermark panicked: "+res.PanicMsg, replay)
+			return
+		}
+		if res.Err != nil {
+			c.Violation("error", "max_diff_watermark returned error: "+res.Err.Error(), replay)
+			return
+		}
+		if selftest && idx%4 == 1 && k == 1 && len(outs) > 0 {
+			outs = outs[:len(outs)-1]
+		}
+		if msg := judge(tc, outs, reference(tc.times, tc.cfg, false)); msg != "" {
+			key := "generator-mismatch"
+			if k > 0 {
+				key = "state-carried-over-between-runs"
+				if judge(tc, outs, reference(tc.times, tc.cfg, true)) == "" && preEpochPredicate(tc) {
+					key = "pre-epoch-rounding"
+				}
+			} else if preEpochPredicate(tc) && judge(tc, outs, reference(tc.times, tc.cfg, true)) == "" {
+				key = "pre-epoch-rounding"
+			}
+			c.Violation(key, fmt.Sprintf("run %d of the same materialized node: %s", k+1, msg), replay)
+			return
+		}
+		c.Count(fmt.Sprintf("rerun/run_%d_judged", k+1), 1)
+	}
+	c.Count("rerun/cases", 1)
+	c.Nontrivial(fmt.Sprintf("rerun|%s|%d|%v", first.cfg, len(tcs), first.times))
+	if idx%7 == 0 {
+		r := first.replay(nil)
+		r["runs"] = len(tcs)
+		c.Sample(r)
+	}
+}
+
+// SQL shapes that re-run a subplan: a scalar subquery evaluated per outer row and the right side of
+// a LOOKUP JOIN evaluated per source row. Every evaluation must see the full stream.
+func runShapes(c *core.Ctx, tc *tcase, idx int) {
+	evs, _ := buildScript(tc)
+	nOuter := 2 + idx%3
+	var outer []nodeh.Event
+	for k := 0; k < nOuter; k++ {
+		outer = append(outer, nodeh.Rec([]octosql.Value{octosql.NewInt(int64(k))}, false, time.Time{}))
+	}
+	mk := func() *nodeh.DB {
+		return &nodeh.DB{Tables: map[string]*nodeh.Table{
+			"t": {Fields: tc.fields(), TimeField: -1, Events: evs},
+			"o": {Fields: []physical.SchemaField{{Name: "k", Type: octosql.Int}}, TimeField: -1, NoRetractions: true, Events: outer},
+		}}
+	}
+	tvf := strings.TrimPrefix(tc.sql(), "SELECT * FROM ")
+	judgeShape := func(si int, outs []nodeh.Out, trunc bool) string {
+		return shapesFor(tc, tvf, nOuter, trunc)[si].judge(outs)
+	}
+	shapes := shapesFor(tc, tvf, nOuter, false)
+	runShapeList(c, tc, idx, nOuter, mk, shapes, judgeShape)
+}
+
+type sqlShape struct {
+	name, sql string
+	judge     func(outs []nodeh.Out) string
+}
+
+// shapesFor builds the three queries and their expectations from the reference (floor rounding, or
+// the truncating variant used only to recognise the fixed finding pre-epoch-rounding).
+func shapesFor(tc *tcase, tvf string, nOuter int, trunc bool) []sqlShape {
+	want := reference(tc.times, tc.cfg, trunc)
+	var passed []int64
+	for i, s := range want {
+		if s.pass {
+			passed = append(passed, int64(i))
+		}
+	}
+	type shape = sqlShape
+	perOuter := func(outs []nodeh.Out, wantVal func(k int64) string) string {
+		seen := map[int64]int{}
+		for _, o := range outs {
+			if o.IsWatermark {
+				continue
+			}
+			r := o.Record
+			if len(r.Values) != 2 || r.Values[0].TypeID != octosql.TypeIDInt {
+				return "unexpected row " + o.String()
+			}
+			k := r.Values[0].Int
+			seen[k]++
+			if got := nodeh.ValKey(r.Values[1]); got != wantVal(k) {
+				return fmt.Sprintf("outer row k=%d sees %s, the full stream gives %s", k, got, wantVal(k))
+			}
+		}
+		for k := 0; k < nOuter; k++ {
+			if seen[int64(k)] != 1 {
+				return fmt.Sprintf("outer row k=%d appears %d times", k, seen[int64(k)])
+			}
+		}
+		return ""
+	}
+	idList := "["
+	for i, id := range passed {
+		if i > 0 {
+			idList += ","
+		}
+		idList += fmt.Sprintf("i%d", id)
+	}
+	idList += "]"
+	shapes := []shape{
+		{"scalar-subquery-count", "SELECT o.k, (SELECT count(*) FROM " + tvf + ") AS c FROM m.o o", func(outs []nodeh.Out) string {
+			return perOuter(outs, func(int64) string { return fmt.Sprintf("[i%d]", len(passed)) })
+		}},
+		{"scalar-subquery-ids", "SELECT o.k, (SELECT x.id FROM " + tvf + ") AS c FROM m.o o", func(outs []nodeh.Out) string {
+			return perOuter(outs, func(int64) string { return idList })
+		}},
+		{"lookup-join-right-side", "SELECT o.k, x.id FROM m.o o LOOKUP JOIN " + tvf + " ON x.id >= o.k", func(outs []nodeh.Out) string {
+			got := nodeh.Multiset{}
+			for _, o := range outs {
+				if !o.IsWatermark {
+					n := 1
+					if o.Record.Retraction {
+						n = -1
+					}
+					got.Add(nodeh.RowKey(o.Record.Values), n)
+				}
+			}
+			wantM := nodeh.Multiset{}
+			for k := 0; k < nOuter; k++ {
+				for _, id := range passed {
+					if id >= int64(k) {
+						wantM.Add(fmt.Sprintf("i%d|i%d", k, id), 1)
+					}
+				}
+			}
+			if !got.Equal(wantM) {
+				return fmt.Sprintf("join rows %s, want %s (got-want = %s)", got, wantM, got.Diff(wantM))
+			}
+			return ""
+		}},
+	}
+	return shapes
+}
+
+func runShapeList(c *core.Ctx, tc *tcase, idx, nOuter int, mk func() *nodeh.DB, shapes []sqlShape, judgeShape func(si int, outs []nodeh.Out, trunc bool) string) {
+	for si, sh := range shapes {
+		c.Eval(1)
+		replay := tc.replay(nil)
+		replay["id"] = tc.id
+		replay["sql"] = sh.sql
+		replay["outer_rows"] = nOuter
+		_, outs, res, perr := nodeh.RunSQL(nodeh.Ctx(), sh.sql, mk(), nodeh.PlanOpts{Optimize: tc.optimize, Output: "none"}, 30*time.Second)
+		if perr != nil {
+			key := "plan-error:" + perr.Stage
+			if perr.Stage == "panic" {
+				key = "panic:" + core.PanicSite(perr.Stack)
+			}
+			c.Violation(key, sh.name+": "+perr.Error(), replay)
+			continue
+		}
+		replay["output"] = nodeh.OutsString(outs)
+		if res.TimedOut {
+			c.Inconclusive("watchdog")
+			continue
+		}
+		if res.Panicked {
+			c.Violation("panic:"+core.PanicSite(res.Stack), sh.name+" panicked: "+res.PanicMsg, replay)
+			continue
+		}
+		if res.Err != nil {
+			c.Violation("error", sh.name+" returned error: "+res.Err.Error(), replay)
+			continue
+		}
+		if selftest && idx%4 == 1 && len(outs) > 0 {
+			outs = outs[1:]
+		}
+		if msg := sh.judge(outs); msg != "" {
+			key := "subplan-re-evaluation-sees-partial-stream"
+			if preEpochPredicate(tc) && judgeShape(si, outs, true) == "" {
+				key = "pre-epoch-rounding" // exactly the truncating generator, nothing else
+			}
+			c.Violation(key, sh.name+": "+msg, replay)
+			continue
+		}
+		c.Count("shape/"+sh.name, 1)
+		if len(tc.times) >= 3 {
+			c.Nontrivial(fmt.Sprintf("shape|%d|%s|%v", si, tc.cfg, tc.times))
+		}
+		if idx%11 == 0 && si == 2 {
+			c.Sample(replay)
+		}
+	}
 }
 
 func account(c *core.Ctx, tc *tcase, want []step, replay map[string]interface{}) {
@@ -862,6 +1127,52 @@ func Run(c *core.Ctx) core.FinishOpts {
 		}
 		runCase(c, jobs[i], i)
 	})
+	// the same materialized node run 2-3 times, and SQL shapes that re-evaluate the TVF as a subplan
+	nRe := c.Pick(10, 200)
+	type rerunJob struct{ tcs []*tcase }
+	var reruns []rerunJob
+	var shapeJobs []*tcase
+	for ci, cfg := range configs {
+		rng := c.Rng(fmt.Sprintf("rerun-%d", ci))
+		for si := 0; si < nRe; si++ {
+			first := genCase(rng, cfg, ci, si)
+			first.id = fmt.Sprintf("rerun-c%d-s%d", ci, si)
+			tcs := []*tcase{first}
+			for r := 1; r < 2+si%2; r++ {
+				var next *tcase
+				if rng.Intn(2) == 0 {
+					cp := *first // the very same script again
+					next = &cp
+				} else {
+					next = genCase(rng, cfg, ci, si)
+					next.layout, next.variant, next.optimize = first.layout, first.variant, first.optimize
+				}
+				tcs = append(tcs, next)
+			}
+			reruns = append(reruns, rerunJob{tcs})
+			sh := genCase(rng, cfg, ci, si)
+			sh.id = fmt.Sprintf("shape-c%d-s%d", ci, si)
+			for k := range sh.retr {
+				sh.retr[k] = false
+			}
+			sh.srcWMAt = map[int]int64{}
+			if si < (nRe*6+9)/10 {
+				shapeJobs = append(shapeJobs, sh)
+			}
+		}
+	}
+	core.Parallel(len(reruns), 16, func(i int) {
+		if c.Only != "" && c.Only != reruns[i].tcs[0].id {
+			return
+		}
+		runRerun(c, reruns[i].tcs, i)
+	})
+	core.Parallel(len(shapeJobs), 16, func(i int) {
+		if c.Only != "" && c.Only != shapeJobs[i].id {
+			return
+		}
+		runShapes(c, shapeJobs[i], i)
+	})
 	if c.Only == "" {
 		rejectionProbes(c)
 	}
@@ -874,7 +1185,7 @@ func Run(c *core.Ctx) core.FinishOpts {
 		Level: "exploration",
 		Rule: "16 configurations (max_diff {0,1ns,5s,1h} x resolution {1ns, omitted, 7s, 1min}) x seeded time sequences (ascending, locally shuffled, bursts of duplicates, random walk; " +
 			"ns or s granularity; post-epoch, pre-epoch, straddling the epoch; instants on and 1ns around multiples of the resolution; optional retractions, source event times and source watermarks), " +
-			"run as real SQL over a memdb table with and without the optimizer, plus a CLI leg over JSON files; non-trivial = at least 3 records and 2 expected watermarks; distinct by configuration and time sequence",
+			"run as real SQL over a memdb table with and without the optimizer, plus a CLI leg over JSON files; plus the same materialized node run 2-3 times (same or different script) and the TVF re-evaluated as a subplan (scalar subquery per outer row, right side of a LOOKUP JOIN); non-trivial = at least 3 records and 2 expected watermarks; distinct by configuration and time sequence",
 		Floor: c.Pick(400, 30000),
 		Assumptions: []string{
 			"oracle: own step-by-step reference in int64 Unix-nanosecond arithmetic with floor division",
